@@ -180,8 +180,10 @@ func newEnv(c *suiteCtx, cfg proxyCfg) (*testEnv, error) {
 	o.Cookie.HTTPOnly = cfg.CookieHTTPOnly
 	o.Cookie.SameSite = cfg.CookieSameSite
 	o.Cookie.CSRFPerRequest = cfg.CSRFPerRequest
-	if cfg.CSRFExpire != 0 {
+	if cfg.CSRFExpire > 0 {
 		o.Cookie.CSRFExpire = cfg.CSRFExpire
+	} else if cfg.CSRFExpire < 0 { // explicitly zero: a browser-session CSRF cookie
+		o.Cookie.CSRFExpire = 0
 	}
 	o.EncodeState = cfg.EncodeState
 	o.SkipProviderButton = cfg.SkipProviderButton
